@@ -54,6 +54,9 @@ pub struct E3Scn {
     /// `--map-signal FROM:TO` (TO = None: discard). A mapped interrupt / terminate no longer quits.
     #[serde(default)]
     pub map_signals: Vec<(String, Option<String>)>,
+    /// `--wrap-process=group|session|none`, or "legacy-none" = `--no-process-group`; None = the default (group)
+    #[serde(default)]
+    pub wrap: Option<String>,
 }
 
 impl E3Scn {
@@ -78,6 +81,11 @@ impl E3Scn {
         if self.postpone {
             v.push("--postpone".into());
         }
+        match self.wrap.as_deref() {
+            Some("legacy-none") => v.push("--no-process-group".into()),
+            Some(w) => v.push(format!("--wrap-process={w}")),
+            None => {}
+        }
         for (from, to) in &self.map_signals {
             v.push(format!("--map-signal={from}:{}", to.as_deref().unwrap_or("")));
         }
@@ -101,6 +109,14 @@ impl E3Scn {
             Some((_, Some(to))) => Some(sig_no(to)),
             Some((_, None)) => None,
             None => Some(sig),
+        }
+    }
+    /// (process group, session) wrappers the spawned command must carry
+    pub fn expected_wrappers(&self) -> (bool, bool) {
+        match self.wrap.as_deref() {
+            None | Some("group") => (true, false),
+            Some("session") => (false, true),
+            _ => (false, false),
         }
     }
     pub fn stop_sig_no(&self) -> i32 {
